@@ -31,7 +31,8 @@
 // (Model/DetReorder.lean, DetReorderPass.lean).  The logged moves of the same pass are printed on the
 // implementation side, so every move the real loops perform must be the move the model performs, in order,
 // with the same value()/hpwl()/flag before it.  Shifts are still replayed from the log (lemon is not
-// modelled).  With hook H3b (`h_window`, fixes/hook-h3b-reorder-log.diff) every reordering window — also
+// modelled), but the driver checks that every logged shift is on exactly the cells of the next window of
+// runShifts as modelled (row groups, cells sorted by x when the group starts, overlapping windows).  With hook H3b (`h_window`, fixes/hook-h3b-reorder-log.diff) every reordering window — also
 // those without a better order — is compared: registered cells, regions with their boundaries, number of
 // evaluated leaves, best value, decision.  DetailedPlacer::run() never calls runInserts: the direct run
 // drives `runInserts(localSearchNbRows, localSearchNbNeighbours)` once after run() (markers extra_inserts/extra_end).
@@ -381,21 +382,28 @@ struct Runner {
         int phase = -1;          // index in `phases` of the running phase, -1 before run(), phases.size() after
         char kind = 0;           // kind of the running phase, 'I' for the extra runInserts pass, 0 none
         bool startAfterVal = false;
-        long long moves = 0, windows = 0;
+        long long moves = 0, windows = 0, shifts = 0;
         auto closePhase = [&]() {
           if (kind == 'S') out.impl << "pass_swaps done " << moves << "\n";
           else if (kind == 'I') out.impl << "pass_inserts done " << moves << "\n";
           else if (kind == 'R') out.impl << "pass_reorder done " << (hasWin ? windows : moves) << "\n";
+          else if (kind == 'H') {
+            // every runShiftsOnCells call of the pass was matched against the modelled windows
+            out.ops << "pass_shifts_end\n";
+            out.impl << "pass_shifts done " << shifts << "\n";
+          }
           kind = 0;
         };
         auto startPhase = [&]() {
           ++phase;
-          moves = windows = 0;
+          moves = windows = shifts = 0;
           if (phase >= (int)phases.size()) { kind = 0; return; }
           kind = phases[phase];
           // run() hands (localSearchNbNeighbours, localSearchNbRows) to runSwaps(int nbRows, int nbNeighbours)
           if (kind == 'S')
             out.ops << "pass_swaps " << prm.p.detailed.localSearchNbNeighbours << " " << prm.p.detailed.localSearchNbRows << "\n";
+          else if (kind == 'H')
+            out.ops << "pass_shifts " << prm.p.detailed.shiftNbRows << " " << prm.p.detailed.shiftMaxNbCells << "\n";
           else if (kind == 'R')
             out.ops << "pass_reorder " << prm.p.detailed.reorderingNbRows << " " << prm.p.detailed.reorderingMaxNbCells << " "
                     << (hasWin ? 1 : 0) << "\n";
@@ -442,6 +450,7 @@ struct Runner {
           } else if (l.rfind("h_shift", 0) == 0) {
             out.ops << l << "\n";
             lastWasShift = true;
+            ++shifts;
             out.count("logged_shifts");
           } else if (l.rfind("h_", 0) == 0) {
             // a move of a generated pass: the driver must produce it itself
@@ -509,6 +518,11 @@ int main(int argc, char **argv) {
       "with hook H3 a second, direct run of the body of DetailedPlacer::place gives DetailedPlacer::value(), Circuit::hpwl() of "
       "the export and the orientation flag at every primitive move and callback (value_samples; value_samples_orient_kept must "
       "all have value == hpwl; shift_samples must not increase value); "
+      "pass level (pass_level_histories): the driver is given only `pass_swaps/pass_reorder/pass_inserts` + the pass arguments and "
+      "generates the moves with the model of the candidate enumeration and of RowReordering (generated_swap / generated_insert / "
+      "generated_reorder = logged moves that the model had to reproduce, in order, with the value before each); the extra pass "
+      "runInserts(localSearchNbRows, localSearchNbNeighbours) is driven after run() (pass_I); with hook H3b reorder_windows = windows "
+      "whose cells, region boundaries, number of evaluated leaves, best value and decision were compared; "
       "non-trivial = the returned HPWL is strictly below the legalized one; distinct by input text";
   Runner rn(out);
   auto runText = [&](const std::string &id, const std::string &text) {
